@@ -98,6 +98,8 @@ def run():
                           open(os.path.join(vlib.SPEC, "MC_PolyDivide_defect.cfg")).read())
     expect_counterexample(t, "PolyDivide{zero_divisor_test_strict} divides by the zero polynomial at a zero tolerance", "MC_PolyDivide",
                           open(os.path.join(vlib.SPEC, "MC_PolyDivide_defect2.cfg")).read())
+    expect_counterexample(t, "SplineSweep{sweep_uses_the_row_s_own_interval} breaks the continuity of the slope", "MC_SplineSweep",
+                          open(os.path.join(vlib.SPEC, "MC_SplineSweep_defect.cfg")).read())
     # ---- unbounded lemmas of the Brent design (TLAPS) -----------------------------------------------------
     import shutil
     import tempfile
